@@ -301,5 +301,22 @@ def replay(ctx, v, name):
     return bool(bad), det
 
 
+def native(ctx):
+    n = 30 if ctx.tier == 'quick' else 300
+    done = False
+    for i in range(n):
+        locs = ctx.rng.sample([0, 1, 2, 3, 5, 7], NMEMBERS)
+        v = {'wg': tuple(ctx.rng.choice([1, 2, 64, 65535, 2 ** 32 - 1]) for _ in range(3)),
+             'res': ctx.rng.choice(['none', 'loc', 'builtin', 'struct']), 'loc': ctx.rng.choice([0, 1, 3, 7]),
+             'members': [(ctx.rng.choice(['loc', 'loc', 'builtin']), l) for l in locs], 'extra_stage': ctx.rng.randrange(3)}
+        if sum(1 for k_, _ in v['members'] if k_ == 'builtin') > 2:
+            continue
+        rep, det = replay(ctx, v, '')
+        if rep and not done:
+            done = True
+            ctx.report('C14/native', f'{v}: {det.get("failed") or det.get("real")}', det, True, det)
+        elif not rep:
+            ctx.replayed_ok += 1
+
 if __name__ == '__main__':
-    sys.exit(main('C14', run))
+    sys.exit(main('C14', run, native))
